@@ -341,3 +341,6 @@ CLAIMS["C09"]["text"] += (" The per-peer cap property also consumes signed recor
 CLAIMS["C03"]["text"] += (" Memory limits include finite values whose product with (1+priority) overflows int64 (MaxInt64-1, MaxInt64-255, 2^62+77, 2^56+129, 2^55+1) and a quarter of the reservations are sized at the model's admission threshold "
     "(largest admitted size found by bisection on the big-integer model, then -1/0/+1; label reserve:at-threshold).")
 CLAIMS["C03"]["note"] += (" No scope is driven past MaxInt64 bytes in total (the roots' headroom bounds every generated size): what the manager does when an unlimited scope's counter would wrap is not part of the statement.")
+
+CLAIMS["C06"]["text"] += (" A third of the schedules build the swarm with a metrics tracer (connections are wrapped on admission) and a quarter of the transport connections report an error from Close/CloseWithError while shutting down all the same; "
+    "whether a connection is limited is taken from what the scripted transport produced: the swarm's Stat().Limited must agree and Connectedness and events are judged against the transport's truth (labels limited-conn-under-metrics-tracer, transport-close-reports-error).")
